@@ -572,7 +572,8 @@ def competition_summary(comp: "Competition") -> dict:
     _facts = facts
 
     def facts(guards):  # noqa: F811  (shadow: validation complements dropped)
-        return _facts(tuple((g, pol) for g, pol in guards if not any((g, not pol) in r.guards for r in raises)))
+        from .rules_premise import validation_guard
+        return _facts(tuple((g, pol) for g, pol in guards if not validation_guard(raises, g, pol)))
     # seeding
     before = [e for e in w.events if e.seq < comp.loop.first_seq]
     ins = [e for e in before if e.kind == "call" and e.name == "insert" and e.target == ("attr", comp.heap, "insert")]
